@@ -45,8 +45,15 @@ def h_tournament(ctx: Ctx, cfg):
     rep = TokRep()
     m = cfg["M"]
     inds = [Individual(rep.create_genotype(None), rep) for _ in range(m)]
+    other = None
+    if cfg.get("other_problem"):
+        # the individuals already carry a fitness for ANOTHER problem that is still alive (a
+        # population scored under one objective is handed to a selection for a second one)
+        fit0 = SymFitness(ctx, TABLES[2])
+        other = SingleObjectiveProblem(fit0, minimize=ctx.bool("minimize_other"))
+        SequentialEvaluator().evaluate(other, list(inds))
     t = cfg["t"]
-    k = ctx.cint(1, m, "target")
+    k = cfg["K"] if cfg.get("K") else ctx.cint(1, m, "target")
     wr = cfg["wr"]
     r = LogRandom(ctx)
     pop = list(inds) if cfg.get("form", "list") == "list" else iter(list(inds))
@@ -129,6 +136,7 @@ def obligations(tier: str):
     for t in (1, 2, 3):
         for wr in (True, False):
             add("tournament", f"tournament_pop2_t{t}_{'repl' if wr else 'norepl'}", M=2, t=t, wr=wr, table=3 if t < 3 else 2, timeout=200)
+    add("tournament", "tournament_pop2_t2_scored_under_another_problem", M=2, t=2, wr=True, table=2, other_problem=True, K=1 if not T else None, timeout=200)
     add("tournament", "tournament_iterator_pop2_t2", M=2, t=2, wr=False, table=2, form="iterator")
     if T:
         for t in (1, 2, 4):
